@@ -217,6 +217,12 @@ Inv_C18_Split ==
                       /\ SplitSet(V, T) \cap T = {}
                       /\ SeqVoxels(Canon(SplitSet(V, T))) = V \ T
 
+\* adding counts exactly the voxels that were not there, and nothing is lost
+Inv_C18_Add ==
+    \A k \in 1..NMasks :
+      /\ Cardinality(AddSet(V, MaskSet(k))) = Cardinality(V) + Cardinality(MaskSet(k) \ V)
+      /\ V \subseteq AddSet(V, MaskSet(k)) /\ MaskSet(k) \subseteq AddSet(V, MaskSet(k))
+
 \* clipping keeps exactly the voxels inside the box
 Inv_C18_Fit ==
     \A i \in 1..Len(Bounds) :
@@ -250,6 +256,8 @@ Emit ==
        split |-> [k \in 1..NMasks |-> [s |-> Conc(Canon(V \cap MaskSet(k))), m |-> MaskOf(SplitSet(V, V \cap MaskSet(k)))]],
        fit   |-> [i \in 1..Len(Bounds) |-> MaskOf(FitSet(V, Bounds[i]))],
        add   |-> [k \in 1..NMasks |-> MaskOf(AddSet(V, MaskSet(k)))],
+       addn  |-> [k \in 1..NMasks |-> Cardinality(MaskSet(k) \ V)],          \* the count Add returns: voxels not there before
+       splitx |-> [k \in 1..NMasks |-> [sub |-> MaskSet(k) \subseteq V, m |-> MaskOf(V \ MaskSet(k))]],  \* Split by an operand that need not be a subset
        spans |-> IF EmitRoi THEN Spans(code) ELSE <<>>,
        ospans |-> IF EmitRoi THEN Overlay(code) ELSE <<>>,
        blocks |-> IF EmitRoi THEN RoiBlocks ELSE {},
